@@ -9,7 +9,7 @@ from vlib import coq_bool, coq_list, coq_option
 
 HEADER = ('From Teleport Require Import Base.Bytes Base.Outcome Model.Bsc Model.BscCheck.\n'
           'Local Open Scope N_scope.\n')
-SHARD = 12   # chains per Coq file
+SHARD = 5    # chains per Coq file
 
 KINDS = {
     1: 'model and code disagree on the result of CreateClient',
@@ -58,7 +58,7 @@ class Intern:
             if len(raw) >= 8 and raw == bytes(len(raw)):
                 self.defs.append('Definition %s : bytes := zeros %d.' % (n, len(raw)))
             else:
-                self.defs.append('Definition %s : bytes := Eval vm_compute in unhex "%s".' % (n, hexs))
+                self.defs.append('Definition %s : bytes := unhex "%s".' % (n, hexs))
         return n
 
     def term(self, typ, text):
